@@ -97,6 +97,12 @@ structure Cfg where
   fdtStartId : Nat
   /-- `(priority, multiplex_files)`, ascending priority (BTreeMap order) -/
   queues : List (Nat × Nat)
+  /-- does a serialised FDT instance fit the session's default OTI?  `Fdt::publish` is fallible: `FileDesc::new`
+      refuses an FDT whose transfer length exceeds `Oti::max_transfer_length()` (e.g. Reed-Solomon GF(2^8) with
+      E = B = 1: 255 bytes, smaller than any FDT) and returns the error BEFORE anything is changed; the two
+      automatic publications swallow it (`self.publish(now).ok()`).  Abstraction: admission is a constant of the
+      session (the generated class is "no FDT ever fits"); sizes in between are not modelled. -/
+  fdtFits : Bool := true
   deriving Repr, DecidableEq
 
 /-- arguments of `add_object` the scheduler reads (`ObjectDesc` + `TransferConfig`) -/
@@ -258,14 +264,15 @@ def isTransferring (s : State) (toi : Nat) : Bool :=
   | some f => f.info.transferring
   | none => false
 
-/-- `Fdt::publish` -/
+/-- `Fdt::publish`.  `fdtId` is the id as carried by EXT_FDT (`push_fdt` masks it to its 20 bits; matters only
+    for the first instance when `fdt_start_id ≥ 2^20`). -/
 def publish (s : State) (now : Nat) : State :=
   let k := s.fdts.length
   let content := match s.cfg.mode with
     | .full => s.files
     | .being => s.files.filter (isTransferring s)
   let fd : FileDesc :=
-    { key := k, isFdt := true, fdtId := s.fdtid, content := content, prio := 0,
+    { key := k, isFdt := true, fdtId := s.fdtid % 1048576, content := content, prio := 0,
       nSym := tblGet s.fdtPkts k, maxCount := 1, carousel := some s.cfg.fdtCarousel,
       target := none, allowStop := false, published := true, info := {} }
   { s with
@@ -293,9 +300,12 @@ def fdtBusy (s : State) : Bool :=
   | some k => (match getF s.fdts k with | some f => f.info.transferring | none => false)
   | none => false
 
-/-- `if self.current_fdt_will_expire(now) { self.publish(now) }` -/
+/-- `Fdt::publish` including its error path: a refused FDT changes nothing (`Err`) -/
+def publishTry (s : State) (now : Nat) : State := if s.cfg.fdtFits then publish s now else s
+
+/-- `if self.current_fdt_will_expire(now) { self.publish(now).ok() }` -/
 def fdtMaybePublish (s : State) (now : Nat) : State :=
-  if currentFdtWillExpire s now then publish s now else s
+  if currentFdtWillExpire s now then publishTry s now else s
 
 /-- `if !fdt_transfer_queue.is_empty() { current_fdt_transfer = fdt_transfer_queue.pop_front() }` -/
 def fdtPop (s : State) : State :=
@@ -340,7 +350,7 @@ def fileStartStep (s : State) (t now tk : Nat) : State :=
 /-- automatic publication at transfer start (`ObjectsBeingTransferred`) -/
 def autoPublish (s : State) (now : Nat) : State :=
   match s.cfg.mode with
-  | .being => publish s now
+  | .being => publishTry s now
   | .full => s
 
 /-- `Fdt::get_next_file_transfer` -/
@@ -540,7 +550,7 @@ def triggerTransferAt (s : State) (toi : Nat) (ts : Option Nat) : State × Bool 
   (emit s (.opTrigger toi ts true), true)
 
 /-- `Sender::publish` -/
-def publishOp (s : State) (now : Nat) : State := publish (emit s (.opPublish now)) now
+def publishOp (s : State) (now : Nat) : State := publishTry (emit s (.opPublish now)) now
 
 def nbObjects (s : State) : Nat := s.files.length
 def isAdded (s : State) (toi : Nat) : Bool := s.files.contains toi
